@@ -401,6 +401,8 @@ class Case(object):
 
     def call(self, inputs):
         self.rec.reset()
+        self.history = getattr(self, 'history', [])
+        self.history.append(list(inputs))
         st, out = core.guarded(self.top.grader, None, list(inputs))
         if st == 'timeout':
             return 'timeout', None
@@ -775,6 +777,33 @@ def gen_inputs(rng, case, m, with_raising):
     return xs
 
 
+def history_of(rng, case, m):
+    """a sequence of related submissions for one grader object: a base submission (built from the answers when
+    possible), the base with one box spoiled, the base again, the base with two groups / boxes exchanged, another
+    spoiled variant, the base once more, an unrelated submission, the base"""
+    top = case.top
+    base = correct_inputs(rng, top, top.grader.config['answers'], m) or gen_inputs(rng, case, m, False)
+
+    def spoiled():
+        xs = list(base)
+        xs[rng.randrange(m)] = rng.choice(case.tokens + ['zz'])
+        return xs
+
+    def exchanged():
+        xs = list(base)
+        gm = top.group_map() or [[i] for i in range(m)]
+        same = [(a, b) for a in range(len(gm)) for b in range(a + 1, len(gm)) if len(gm[a]) == len(gm[b])]
+        if same:
+            a, b = rng.choice(same)
+            for i, j in zip(gm[a], gm[b]):
+                xs[i], xs[j] = xs[j], xs[i]
+        return xs
+    seq = [spoiled(), list(base), exchanged(), spoiled(), list(base), gen_inputs(rng, case, m, False), list(base)]
+    if rng.random() < 0.5:
+        seq.insert(0, list(base))
+    return seq
+
+
 def make_case(rng, palette_name, m=None, force=None, n_alts=None, allow_slg=True):
     palette = {'exact': EXACT, 'ties': TIES, 'rounded': ROUNDED}[palette_name]
     gen = Gen(rng, palette, allow_slg=allow_slg)
@@ -836,11 +865,15 @@ class Runner(object):
     def bump(self, k, n=1):
         self.dist[k] = self.dist.get(k, 0) + n
 
-    def one(self, case, inputs, check_nested=True):
+    def one(self, case, inputs, check_nested=True, fresh_reference=False):
+        """grade `inputs` on the case's grader OBJECT (which keeps whatever earlier submissions left behind) and judge
+        the result.  fresh_reference: the oracle's subgrader calls go to a grader tree rebuilt from the configuration
+        alone, so that nothing the graded object remembers can enter the expected result."""
         res = self.res
+        earlier = list(getattr(case, 'history', []))      # shallow: the inner lists are never mutated
         status, out = case.call(inputs)
         meta = {'grader': case.top.describe(), 'answers': case.answers_repr, 'inputs': list(inputs),
-                'palette': case.palette_name}
+                'palette': case.palette_name, 'history': earlier}
         if status == 'timeout':
             res.witnesses.append(dict(meta, key='timeout:%r' % (inputs,), kind='timeout', what='grader call did not return in 10 s'))
             return status, out
@@ -854,7 +887,10 @@ class Runner(object):
         else:
             self.terms_total.append(term)
             self.metas_total.append(meta)
-        what = oracle(case.top, inputs, status, out if status == 'ret' else out, self.count, nested=check_nested)
+        judge = rebuild(meta) if fresh_reference else case.top
+        what = oracle(judge, inputs, status, out, self.count, nested=check_nested)
+        if what and earlier:
+            what += '  [same grader object, after %d earlier submission(s)]' % len(earlier)
         if what:
             res.witnesses.append(dict(meta, key='case:%s|%s|%r' % (case.top.describe(), case.answers_repr, inputs),
                                       kind='call', observed=repr(out), what=what))
@@ -937,6 +973,21 @@ def run(ctx):
             runner.one(case, xs[:-1] if rng.random() < 0.5 else xs + ['u0'])
         case.rec.unwrap()
 
+    # 1b. histories: the SAME grader object grades a sequence of related submissions (correct, one box spoiled,
+    #     correct again, two groups / boxes exchanged, ...) in every ordered / grouping / partial_credit mode; each
+    #     result is judged against a tree rebuilt from the configuration alone
+    n_hist = 160 if thorough else (64 if big else 40)
+    for i in range(n_hist):
+        ordered, grouped, partial = bool(i & 1), bool(i & 2), bool(i & 4)
+        m = rng.choice([4, 6, 8] if grouped and not ordered else [2, 3, 4, 5, 6])
+        case, m = make_case(rng, ('exact', 'ties', 'rounded')[i % 3] if i % 5 else 'exact', m=m,
+                            force={'ordered': ordered, 'grouped': grouped, 'partial': partial},
+                            n_alts=rng.choice([1, 1, 2]))
+        for xs in history_of(rng, case, m):
+            runner.one(case, xs, fresh_reference=True)
+        runner.bump('history_sequences')
+        case.rec.unwrap()
+
     # 2. all permutations of an input list (n <= 4 quick, n <= 6 thorough), unordered and ordered, flat
     max_perm_n = 6 if thorough else 4
     reps = 6 if thorough else 2
@@ -999,6 +1050,13 @@ def rebuild(w):
     top = node_of(w['grader'])
     answers = ast.literal_eval(w['answers'])      # a Python literal written by this module
     build(top, answers)
+
+    def init_logs(node):
+        # check() is called directly on these graders by the oracle; __call__ would have created the debug log
+        node.grader.debuglog = []
+        for sub in getattr(node, 'subs', []):
+            init_logs(sub)
+    init_logs(top)
     return top
 
 
@@ -1014,13 +1072,15 @@ def replay(w):
                 totals.add(sum(F(e['grade_decimal']) for e in out['input_list']))
         bad = len(totals) > 1 and max(totals) - min(totals) > EPS
         return bad, 'totals over all permutations of %r: %r' % (w['inputs'], sorted(map(float, totals)))
+    for h in w.get('history') or []:                 # the submissions the same grader object graded before
+        core.guarded(top.grader, None, list(h))
     st, out = core.guarded(top.grader, None, list(w['inputs']))
     if st == 'timeout':
         return True, 'grader call still does not return'
     o = [snap(e) for e in out['input_list']] if st == 'ret' else out
-    what = oracle(top, list(w['inputs']), st, o, count)
-    return what is not None, 'grader %r\nanswers %s\ninputs %r\nobserved %r\noracle: %s' % (
-        w['grader'], w['answers'], w['inputs'], o, what or 'property holds')
+    what = oracle(rebuild(w), list(w['inputs']), st, o, count)      # judged against a fresh tree
+    return what is not None, 'grader %r\nanswers %s\nearlier submissions %r\ninputs %r\nobserved %r\noracle: %s' % (
+        w['grader'], w['answers'], w.get('history'), w['inputs'], o, what or 'property holds')
 
 
 TRUSTED = [
